@@ -149,6 +149,31 @@ def run_case(desc):
         if beyond.any():
             i, j = np.argwhere(beyond)[0]
             out.fail("beyond-cutoff-inf", "pair (%d,%d) with d_mic=%.9g > cutoff=%.9g reported finite %.9g" % (i, j, Dm[i, j], limit, dist[i, j]))
+    # --- get_distances: the same table (unbounded cutoff) with radii subtracted, for every periodicity --------------------
+    lim_unb = lens[pbc].max() if pbc.any() else 0.0
+    if n_images(cell, pbc, lim_unb, n, None)[0] <= 5e3:      # get_distances always uses the unbounded cutoff: bound its cost
+        from ase import Atoms
+        from ase.data import covalent_radii
+        at = Atoms(numbers=[6] * n, positions=pos, cell=cell, pbc=pbc)
+        ok, dres = call(mg.get_distances, at)
+        if not ok:
+            out.fail("returns-normally", "get_distances: %r" % dres, key="exc-distances:" + exc_key(dres))
+        else:
+            lim2 = lens[pbc].max() if pbc.any() else float("inf")
+            dmm = np.asarray(dres.dist_matrix_mic, float)
+            w2 = (Dm <= lim2 - EPS) & ~np.eye(n, dtype=bool)
+            if dmm.shape != (n, n) or not np.isfinite(dmm).all():
+                out.fail("distances-complete", "get_distances returned non-finite entries or a wrong shape")
+            elif w2.any() and np.abs(dmm - Dm)[w2].max() > atol:
+                i, j = np.argwhere(w2 & (np.abs(dmm - Dm) > atol))[0]
+                out.fail("distances-minimum-image", "get_distances: pair (%d,%d) reported %.9g, true minimum image %.9g (pbc %s)" % (i, j, dmm[i, j], Dm[i, j], pbc.tolist()))
+            else:
+                rr = np.asarray(dres.dist_matrix_radii_mic, float)
+                if np.abs(rr - (dmm - 2 * covalent_radii[6])).max() > 1e-9:
+                    out.fail("distances-radii", "dist_matrix_radii_mic is not dist_matrix_mic minus the radii")
+                fa = np.asarray(dres.disp_factors, float)
+                if fa.shape != (n, n, 3) or not np.array_equal(fa, np.rint(fa)) or (fa[:, :, ~pbc] != 0).any():
+                    out.fail("distances-factors", "disp_factors of get_distances are not integers vanishing along non-periodic axes")
     nz = (F != 0).any(axis=2)
     out.nontrivial = bool(n >= 2 and pbc.any() and nz.any())
     if out.nontrivial:
